@@ -47,6 +47,11 @@ class RInterp(guards.GInterp):
         name = n["name"]
         if name == "dot":
             return DOT(self.num(self.ev(n["recv"]), n), self.num(self.ev(n["args"][0]), n))
+        if name == "dotc" and len(n["args"]) == 1:
+            a_, b_ = self.num(self.ev(n["recv"]), n), self.num(self.ev(n["args"][0]), n)
+            return NORM(a_) ** 2 if a_ == b_ else sp.Function("dotc")(a_, b_)        # the conjugating product of a vector with itself is its squared norm
+        if name in ("norm_squared", "magnitude_squared"):
+            return NORM(self.num(self.ev(n["recv"]), n)) ** 2
         if name in ("lu", "full_piv_lu", "qr"):
             return sp.Function("factor")(self.num(self.ev(n["recv"]), n))
         if name == "solve" and (n.get("def") or "").startswith("nalgebra"):
@@ -191,15 +196,14 @@ def dkey(dj):
 
 
 def magnitude_args(e):
-    """Arguments of the magnitude atoms |·|, ‖·‖, sqrt(dot(a,a)) occurring in e."""
+    """Arguments of the magnitude atoms |·|, ‖·‖ occurring in e."""
     out = []
     for a in e.atoms(sp.Abs):
         out.append(a.args[0])
     for a in e.atoms(NORM):
         out.append(a.args[0])
-    for a in e.atoms(DOT):
-        if a.args[0] == a.args[1]:
-            out.append(a.args[0])
+    # `a.dot(&a)` is NOT a magnitude: nalgebra's `dot` does not conjugate, so over a complex field (these solvers are generic over ComplexField) it is
+    # Σ a_k², which can vanish or be negative for a long vector; `dotc` / `norm_squared` are (modelled as norm² above)
     return out
 
 
@@ -266,8 +270,17 @@ def check_stopping(F, run, path, old_name):
             n_ok += 1
             D = p.pc[-1] if p.pc else sp.true
             d = sp.to_dnf(D, simplify=False)
+            # a success in front of the loop may test the first step: returned point − the caller's start (whichever parameter that is)
+            R0 = p.result.args[0] if getattr(p.result, "args", None) else None
+            starts = [sym.S(nm) for prm in b["params"] for _, nm in c07.pat_binds(prm)] if hasattr(R0, "free_symbols") else []
             for dj in (d.args if isinstance(d, sp.Or) else (d,)):
                 cls = classify_disjunct(dj, None, fvals_of(p.interp))
+                if cls is None:
+                    for x0 in starts:
+                        st0 = sp.expand(R0 - x0)
+                        if st0 != 0 and classify_disjunct(dj, st0, []) == "step":
+                            cls = "step"
+                            break
                 run.check(cls is not None, "R8.2", path, "early-success:" + dkey(dj), F.loc(b),
                           "Ok is returned before any iteration because `%s`: this looks neither at a step nor at a residual (a start near the origin is returned untouched)" % dj)
     try:
